@@ -111,12 +111,12 @@ HARNESSES = [
   dict(name='priority_queue_node', unit='prionode', harness='h_bufnode.c', cbmc=['--unwind', '40'] + FS, defines={'KIND': 2},
        scenarios_quick=[sc for q, a in PRIO_QUICK for sc in bufnode_pick([q], 1, [a])],
        scenarios_thorough=bufnode_scenarios(4, [1], ['1'], 1) +
-                          [sc for q, a in (('TTTTTGG', '0'), ('TTTTXGT', '1'), ('TTTTRTLGG', '0'), ('TTTGTGTGG', '0'), ('TTXTTXGG', '2')) for sc in bufnode_pick([q], 1, [a])],
+                          [sc for q, a in (('TTTTGGGG', '0'), ('TTTTXGG', '1'), ('TTTRTLGG', '0'), ('TTXTTXGG', '2')) for sc in bufnode_pick([q], 1, [a])],
        desc='priority_queue_node<int> (std::less), same driver: every hand-out (get / reserve / accepted offer) is a maximum of the buffered values (heapify/reheap/'
             'prio_use_tail with symbolic values), reserve takes the maximum aside and release puts it back, nothing lost or duplicated',
-       bounds={'ops per sequence': 'quick: 6 hand-picked sequences of 5-6 ops; thorough: all sequences of 4 ops + 5 longer sequences with 4-5 items', 'heap size': 'quick <= 4, thorough <= 5',
+       bounds={'ops per sequence': 'quick: 6 hand-picked sequences of 5-6 ops; thorough: all sequences of 4 ops + 4 longer sequences with 4 items', 'heap size': '<= 4',
                'successors': '1', 'accept patterns': 'concrete', 'message values': 'symbolic, pairwise distinct'}, timeout=600, thorough_override={'timeout': 2400}),
-  dict(name='limiter_node', unit='limiter', harness='h_limiter.c', cbmc=['--unwind', '16'] + FS, defines={'memset': 'vp_memset'},
+  dict(name='limiter_node', unit='limiter', harness='h_limiter.c', cbmc=['--unwind', '20'] + FS, defines={'memset': 'vp_memset', 'BAGRUNS': 16},
        scenarios_quick=[{'THR': t, 'OPS': o, 'ACCS': '15,0,5,10', 'AVAIL': 2} for t, o in LIM_QUICK],
        scenarios_thorough=[{'THR': 1, 'OPS': ','.join(q), 'ACCS': '15,0,5,10', 'AVAIL': 2} for q in itertools.product(['1', '21', '22', '51', '52'], repeat=4)] +
                           [{'THR': 2, 'OPS': ','.join(q), 'ACCS': '15,0,5,10', 'AVAIL': 2} for q in itertools.product(['1', '21', '51', '52'], repeat=4)] +
